@@ -276,6 +276,25 @@ def check_one_data(ck, c, g, rng, lay, mconn, how="dataarray"):
         if cnt is not None and cnt != ln:
             ck.fail("data_grid", case, info, detail="dimension %s has length %d, the dual grid has %d" % (name, ln, cnt))
             return None
+    # the values attached to the dual are the ones present when the dual was taken: editing the source in place
+    # afterwards (uxda -= ..., uxda[0] = ...) must not change the result, and editing the result must not change the source
+    if how == "dataarray" and arr.size:
+        try:
+            snap = np.asarray(r.values).copy()
+            src = uxda.data
+            src[...] = src * 2.0 + 1.0
+            if not np.array_equal(np.asarray(r.values), snap):
+                ck.fail("data_values", case, dict(info, stage="after the source array was edited in place"),
+                        detail="the dual's data changed when the primal's data were edited in place after get_dual")
+                return None
+            edited = np.asarray(uxda.values).copy()
+            r.data[...] = -1.0
+            if not np.array_equal(np.asarray(uxda.values), edited):
+                ck.fail("data_values", case, dict(info, stage="after the dual's data were edited in place"),
+                        detail="the primal's data changed when the dual's data were edited in place")
+                return None
+        except (ValueError, TypeError):
+            pass                                   # read-only buffers cannot be edited: nothing to check
     conn = dg.face_node_connectivity.values.tolist()
     bad = spec_check(ck, c, g, dg, conn, tag="data", mconn=mconn, case_extra={"data_layout": case["data_layout"]})
     check_nodes(ck, c, g, dg, level="data", case_extra={"data_layout": case["data_layout"]})
@@ -1208,7 +1227,7 @@ def main(ck):
                           "counter-clockwise orientation was verified in exact rational arithmetic",
         "clauses_checked_on_impl": ["raises", "count", "nodes (current face_lon/face_lat, after every get_dual of a history)",
                                     "pad", "corners", "ring (closed grids)", "data_type", "data_dims (by name, grid dimension first/"
-                                    "middle/last)", "data_values", "data_grid (every grid dimension vs the dual's counts)", "jit",
+                                    "middle/last)", "data_values (also after the source / the result were edited in place)", "data_grid (every grid dimension vs the dual's counts)", "jit",
                                     "dual_consistency (carried and derived connectivity, isel subsets vs a fresh grid built from "
                                     "the dual's own faces)", "all clauses again for the dual of the dual and the third dual"],
         "partial": "ring order is proved only under the hypothesis that the azimuth order of the face centres (what _order_nodes "
